@@ -38,6 +38,14 @@ def sMtRow (nm nt nta : Nat) : List Nat := tile (arange 0 (nm * nt)) nta
 def sMtCol (nm nt nta : Nat) : List Nat :=
   addL (tile (repeatEach (arange 0 nt) nm) nta) (repeatEach (arangeStep (nta * nt) nt) (nt * nm))
 
+
+/-- `A.flatten("F")` of a 2-D array given as a list of rows with `ncols` columns: column after column -/
+def flattenF {α} [Inhabited α] (rows : List (List α)) (ncols : Nat) : List α :=
+  (List.range ncols).flatMap fun c => rows.map (fun r => r.getD c default)
+
+/-- `data_mt = np.tile(transient_m_data, (nt, 1)).flatten("F")`: `M` has one row per matching pair and one column per splice -/
+def sMtData {α} [Inhabited α] (M : List (List α)) (nt nta : Nat) : List α := flattenF (tile M nt) nta
+
 /-! ## double-ended (`construct_submatrices`) -/
 def dGammaRow (nt nx : Nat) : List Nat := arange 0 (nt * nx)
 def dGammaCol (nt nx : Nat) : List Nat := constL (nt * nx) 0
